@@ -934,6 +934,12 @@ fn split_text(s: &str) -> Vec<String> {
     let mut is_leading_whitespace = true;
     let mut is_backslash_prev = false;
 
+    // A block comment is ordinary macro text, but the "//" formed by the end of
+    // one block comment and the start of the next ("*//*") is not a one-line comment.
+    let mut is_block_comment = false;
+    let mut block_comment_len = 0;
+    let mut is_star_prev = false;
+
     let mut iter = s.chars().peekable();
     while let Some(c) = iter.next() {
 
@@ -958,6 +964,18 @@ fn split_text(s: &str) -> Vec<String> {
         is_ident_prev = is_ident;
         is_ident = c.is_ascii_alphanumeric() | (c == '_');
 
+        let in_block_comment = is_block_comment;
+        if is_block_comment {
+            block_comment_len += 1;
+            if c == '/' && is_star_prev && block_comment_len >= 4 {
+                is_block_comment = false;
+            }
+        } else if c == '/' && iter.peek() == Some(&'*') && !is_string && !is_comment {
+            is_block_comment = true;
+            block_comment_len = 1;
+        }
+        let is_star = c == '*';
+
         if c == '\n' && is_comment {
             is_comment = false;
             x.push(c);
@@ -977,7 +995,7 @@ fn split_text(s: &str) -> Vec<String> {
             ret.push(x);
             x = String::from("");
             is_string = false;
-        } else if c == '/' && iter.peek() == Some(&'/') && !is_string {
+        } else if c == '/' && iter.peek() == Some(&'/') && !is_string && !in_block_comment {
             is_comment = true;
         } else if !is_string {
             if is_ident != is_ident_prev {
@@ -990,6 +1008,7 @@ fn split_text(s: &str) -> Vec<String> {
         }
 
         is_backquote_prev = c == '`';
+        is_star_prev = is_star;
     }
     ret.push(x);
     ret
